@@ -278,6 +278,60 @@ theorem body1 (k : ThetaFSt OSt) (j b v w : Nat) (hf : k.fault = none) (hb : k.o
   simp [theta_chain_comput_strategy_faster_no_eval_loop1_body, ThetaFSt.step, ThetaFSt.live, obs, hf, hb, hi, hrd, EvKind.dblIterP,
     ev_dblP_s, OSt.inb, OSt.put, hs1, hs2, hv, hw, hlin, hi0, hi1, hi2, hi3, hi4, hin, hne]
 
+/-- one iteration of the construction of `points1/2[]` preserves the relation -/
+theorem pts_step (g : Nat → Option Nat) (j o : Nat) (k : ThetaFSt OSt) (m : St) (R : RelQ P g k m)
+    (hi : k.i = (j : Int) + 1) (h : j < P.row.length) (hin : j + 1 < P.n) (ho : m.pts j = some o) :
+    theta_chain_comput_strategy_faster_no_eval_loop1_body obs P.row oracle fuel P.n ea k =
+      { k with i := (j : Int) + 1 + 1, level := k.level.set ((j : Int) + 1) ((P.row[j] : Nat) : Int),
+               obs := { ((k.obs.put 1 ((j : Int) + 1) (o - P.row[j])).put 2 ((j : Int) + 1) (o - P.row[j])) with
+                        dbls := k.obs.dbls ++ [(1, (j : Int) + 1, ((P.row[j] : Nat) : Int))] } } ∧
+    RelQ P g
+      { k with i := (j : Int) + 1 + 1, level := k.level.set ((j : Int) + 1) ((P.row[j] : Nat) : Int),
+               obs := { ((k.obs.put 1 ((j : Int) + 1) (o - P.row[j])).put 2 ((j : Int) + 1) (o - P.row[j])) with
+                        dbls := k.obs.dbls ++ [(1, (j : Int) + 1, ((P.row[j] : Nat) : Int))] } }
+      (ptsd m (j + 1) P.row[j] o) := by
+  refine ⟨body1 P oracle fuel ea k j P.row[j] o o R.kf R.kb hi (rdRow_ok P.row j h) R.s1 R.s2 R.lvs hin
+      (by rw [R.a1, ho]) (by rw [R.a2, ho]), ?_⟩
+  have hne1 : ¬ ((2 : Int) = 1) := by omega
+  constructor
+  · exact R.kf
+  · simp [OSt.put, R.kb]
+  · exact R.me
+  · exact R.ix
+  · exact R.ll
+  · exact R.lc
+  · exact R.ad
+  · simp [IArr.set, R.lvs]
+  · intro i
+    simp only [IArr.set, ptsd, SqiModel.ThetaChain.upd]
+    by_cases hi' : i = j + 1
+    · subst hi'; simp
+    · have : ¬ (i : Int) = (j : Int) + 1 := by omega
+      simp [hi', this, R.lvg]
+  · simp [OSt.put, R.s1]
+  · simp [OSt.put, R.s2]
+  · simp [OSt.put, R.s3]
+  · simp [OSt.put, R.s4]
+  · simp [OSt.put, R.s5]
+  · intro i
+    simp only [OSt.put, ptsd, SqiModel.ThetaChain.upd]
+    by_cases hi' : i = j + 1
+    · subst hi'; simp
+    · have : ¬ (i : Int) = (j : Int) + 1 := by omega
+      simp [hi', this, R.a1]
+  · intro i
+    simp only [OSt.put, ptsd, SqiModel.ThetaChain.upd]
+    by_cases hi' : i = j + 1
+    · subst hi'; simp
+    · have : ¬ (i : Int) = (j : Int) + 1 := by omega
+      simp [hi', this, R.a2]
+  · intro i; simp [OSt.put, R.a3]
+  · intro i; simp [OSt.put, R.a4]
+  · simp [OSt.put, R.tg]
+  · have := R.lg
+    simp only [logs, Prod.mk.injEq] at this
+    simp [OSt.put, ptsd, logs_append, this.1, this.2.1, this.2.2, logs, mDbls, mSteps, mKers]
+
 /-- the `for (i = 1; i < len_list; i++)` building `points1/2[]` and `level[]` ≙ `buildPts` -/
 theorem pts_sim (g : Nat → Option Nat) : ∀ (cnt f j : Nat) (k : ThetaFSt OSt) (m : St), RelQ P g k m →
     k.i = (j : Int) + 1 → m.lenList = (j : Int) + 1 + (cnt : Int) → cnt ≤ f →
@@ -310,46 +364,8 @@ theorem pts_sim (g : Nat → Option Nat) : ∀ (cnt f j : Nat) (k : ThetaFSt OSt
     rw [hbody, body1 P oracle fuel ea k j P.row[j] o o R.kf R.kb hi (rdRow_ok P.row j h) R.s1 R.s2 R.lvs hin
       (by rw [R.a1, ho]) (by rw [R.a2, ho])]
     rw [hstep] at he ⊢
-    refine ih f' (j + 1) _ _ ?_ (by simp) (by simp only [ptsd]; rw [hl]; push_cast; omega) (by omega) he
-    have hne1 : ¬ ((2 : Int) = 1) := by omega
-    constructor
-    · exact R.kf
-    · simp [OSt.put, R.kb]
-    · exact R.me
-    · exact R.ix
-    · exact R.ll
-    · exact R.lc
-    · exact R.ad
-    · simp [IArr.set, R.lvs]
-    · intro i
-      simp only [IArr.set, ptsd, SqiModel.ThetaChain.upd]
-      by_cases hi' : i = j + 1
-      · subst hi'; simp
-      · have : ¬ (i : Int) = (j : Int) + 1 := by omega
-        simp [hi', this, R.lvg]
-    · simp [OSt.put, R.s1]
-    · simp [OSt.put, R.s2]
-    · simp [OSt.put, R.s3]
-    · simp [OSt.put, R.s4]
-    · simp [OSt.put, R.s5]
-    · intro i
-      simp only [OSt.put, ptsd, SqiModel.ThetaChain.upd]
-      by_cases hi' : i = j + 1
-      · subst hi'; simp
-      · have : ¬ (i : Int) = (j : Int) + 1 := by omega
-        simp [hi', this, R.a1]
-    · intro i
-      simp only [OSt.put, ptsd, SqiModel.ThetaChain.upd]
-      by_cases hi' : i = j + 1
-      · subst hi'; simp
-      · have : ¬ (i : Int) = (j : Int) + 1 := by omega
-        simp [hi', this, R.a2]
-    · intro i; simp [OSt.put, R.a3]
-    · intro i; simp [OSt.put, R.a4]
-    · simp [OSt.put, R.tg]
-    · have := R.lg
-      simp only [logs, Prod.mk.injEq] at this
-      simp [OSt.put, ptsd, logs_append, this.1, this.2.1, this.2.2, logs, mDbls, mSteps, mKers]
+    exact ih f' (j + 1) _ _ (pts_step P oracle fuel ea g j o k m R hi h hin ho).2 (by simp)
+      (by simp only [ptsd]; rw [hl]; push_cast; omega) (by omega) he
 end Loop1
 
 
